@@ -254,3 +254,7 @@ impl<T: DataType> Decoder<T> for VariableWidthByteStreamSplitDecoder<T> {
         Ok(to_skip)
     }
 }
+
+#[cfg(kani)]
+#[path = "/verif/kani/parquet/encodings/decoding/byte_stream_split_decoder.rs"]
+mod verif_kani;
